@@ -24,6 +24,11 @@ def showOut : Out V → String
   | .ok none => "ok"
   | .ok (some (b, n)) => s!"{b}.{n}"
 
+/-- all orders of a (short) list -/
+def perms {α : Type} : List α → List (List α)
+  | [] => [[]]
+  | x :: xs => (perms xs).flatMap fun p => (List.range (p.length + 1)).map fun i => p.take i ++ [x] ++ p.drop i
+
 def step (st : KVS V) (line : String) : KVS V × Option String :=
   match words line with
   | ["kinit", sz] => ({ sz := sz.toNat?.getD 0, store := fun _ => (0, 0) }, none)
@@ -39,6 +44,23 @@ def step (st : KVS V) (line : String) : KVS V × Option String :=
     | some key =>
       let o := get st key
       (st, if showOut o = r then none else some s!"Get: model {showOut o} impl {r}")
+  | "kround" :: rest =>
+    -- kround <s0> | <put> | <put> ... => <final>
+    match (" ".intercalate rest).splitOn " => " with
+    | [lhs, fin] =>
+      match lhs.splitOn " | " with
+      | s0 :: puts =>
+        match parsePairs s0, puts.mapM parsePairs, parsePairs fin with
+        | some s0, some puts, some fin =>
+          let (st0, _) := multiPut st s0
+          let reachable := (perms puts).any fun order =>
+            let stF := order.foldl (fun s p => (multiPut s p).1) st0
+            fin.all fun kv => stF.store kv.1 == kv.2
+          ({ st with store := applyPairs st.store fin },
+           if reachable then none else some s!"no order of the {puts.length} concurrent MultiPuts explains the final state: not linearizable")
+        | _, _, _ => (st, some "bad kround line")
+      | [] => (st, some "bad kround line")
+    | _ => (st, some "bad kround line")
   | _ => (st, some "unknown command")
 
 def main : IO UInt32 := runLines ({ sz := 0, store := fun _ => (0, 0) } : KVS V) step
